@@ -34,7 +34,7 @@ SUBS = ('c06a', 'c06b', 'c06c')
 # corpus projects of "test cases/common" that exercise configure-time writers (tried first in the quick tier)
 CURATED = ['14 configure file', '44 pkgconfig-gen', '269 configure file output format', '98 subproject subdir',
            '47 same file name', '182 find override', '125 configure file in generator', '253 subproject dependency variables',
-           '42 subproject', '6 linkshared', '13 pch', '33 run program', '220 fs module']
+           '42 subproject', '6 linkshared', '13 pch', '33 run program', '26 find program']
 
 
 def corpus_root() -> Path:
